@@ -7,7 +7,7 @@
    (insert 2, update 1, remove 1), hist_total = sum of all weights ever handed in,
    ldf_peak = max over the operations of (stored sum before + incoming weight). *)
 From EoNV Require Import Prelude Samp ListDict ListDictP ListDictF ListDictFP ListDictFPr
-  ListDictFP2 ListDictFPb.
+  ListDictFP2 ListDictFP3 ListDictFPb.
 From Coq Require Import Qabs.
 
 (* with the identity rounding the model IS the exact model of Props/C16.v *)
@@ -79,6 +79,33 @@ Theorem C16f_only_failure_is_absent_remove :
     ldf_inv K s -> weighted s = true -> op_ok K true o ->
     ldf_step K Keqb rnd s o = Err e -> exists k, o = OpRemove k /\ pos s k = None /\ e = KeyErr.
 Proof. exact (ldf_step_fails K Keqb Keqb_spec rnd eps eps_nonneg eps_le1 rnd_err). Qed.
+
+(* update_total_weight(): relative accuracy gam (number of candidates), never negative *)
+Theorem C16f_update_total_weight_relative :
+  forall s : ld K, ldf_inv K s -> weighted s = true ->
+    wsum K (ldf_resum K rnd s) = wsum K s /\
+    0 <= total (ldf_resum K rnd s) /\
+    Qabs (drift K (ldf_resum K rnd s)) <= gam eps (length (items s)) * wsum K s.
+Proof. exact (ldf_resum_spec K rnd eps eps_nonneg eps_le1 rnd_err). Qed.
+
+(* the drift guard of Gillespie_simple_contagion (total < 10**(-7) and total != 0 =>
+   update_total_weight()): afterwards the rate is never negative, and a rate below the
+   cutoff is exactly 0 or accurate to RELATIVE gam (number of candidates) *)
+Theorem C16f_guard_rate_nonnegative_and_relative :
+  forall (cut : Q) (s : ld K), ldf_inv K s -> weighted s = true -> 0 < cut ->
+    let s' := ldf_guard K rnd cut s in
+    wsum K s' = wsum K s /\ items s' = items s /\ 0 <= total s' /\
+    (total s' < cut -> total s' == 0 \/ Qabs (drift K s') <= gam eps (length (items s)) * wsum K s).
+Proof. exact (ldf_guard_nonneg K rnd eps eps_nonneg eps_le1 rnd_err). Qed.
+
+(* the accept threshold fl(weight/max_weight) of choose_random is within 1 -+ eps of
+   weight/max_weight: 0 for a zero weight (never selected), positive for a positive one *)
+Theorem C16f_accept_threshold_relative :
+  forall (s : ld K) k, ldf_inv K s -> weighted s = true -> 0 < maxw s ->
+    let q := wread K s k / maxw s in
+    (1 - eps) * q <= ldf_threshold K rnd s k /\ ldf_threshold K rnd s k <= (1 + eps) * q /\
+    (eps < 1 -> 0 < wread K s k -> 0 < ldf_threshold K rnd s k).
+Proof. exact (ldf_threshold_bounds K rnd eps rnd_err). Qed.
 
 (* what is stored: a rounding that respects == and leaves the weights handed in alone *)
 Hypothesis rnd_proper : forall x y, x == y -> rnd x == rnd y.
@@ -173,6 +200,9 @@ Print Assumptions C16f_drift_bound_from_state.
 Print Assumptions C16f_emptied_total_is_zero.
 Print Assumptions C16f_structure_every_history.
 Print Assumptions C16f_only_failure_is_absent_remove.
+Print Assumptions C16f_update_total_weight_relative.
+Print Assumptions C16f_guard_rate_nonnegative_and_relative.
+Print Assumptions C16f_accept_threshold_relative.
 Print Assumptions C16f_insert_stores_exactly.
 Print Assumptions C16f_update_relative_error.
 Print Assumptions C16f_stored_weights_exact_when_increments_create.
